@@ -85,8 +85,16 @@ func (w *walker) walk(node *Node) {
 	case *PointerNode:
 		w.visitor.Exit(node)
 	case *ConditionalNode:
+		// For `a ?: b` the parser uses one and the same node as the condition
+		// and as the first branch. Walk it once and keep both slots in step,
+		// otherwise every level of nesting doubles the work.
+		shared := n.Exp1 == n.Cond
 		w.walk(&n.Cond)
-		w.walk(&n.Exp1)
+		if shared {
+			n.Exp1 = n.Cond
+		} else {
+			w.walk(&n.Exp1)
+		}
 		w.walk(&n.Exp2)
 		w.visitor.Exit(node)
 	case *ArrayNode:
